@@ -203,7 +203,14 @@ def openBatch (expired : Bool) (v : Nat) (offset : Int) (s : RS) : BSt :=
     else { rs := s1, pending := none, offset := offset, err := some .unexpectedEOF, hasMsgs := false, empty := false }
   | (.error e, s1) => { rs := s1, pending := none, offset := offset, err := some (ofErr e), hasMsgs := false, empty := false }
   | (.ok c, s1) =>
-    if c.hwm = offset then { rs := s1, pending := none, offset := offset, err := none, hasMsgs := true, empty := true }
+    if c.hwm = offset then
+      -- the `empty` reader never touches the connection; since /repo 5ef8978 a message set that the response carries
+      -- nevertheless is skipped right here (before, it stayed in the stream of a kept conn)
+      if s1.sz > 0 then
+        match discardN s1.sz s1 with
+        | (.ok _, s2) => { rs := s2, pending := none, offset := offset, err := none, hasMsgs := true, empty := true }
+        | (.error e, s2) => { rs := s2, pending := none, offset := offset, err := some (ofErr e), hasMsgs := true, empty := true }
+      else { rs := s1, pending := none, offset := offset, err := none, hasMsgs := true, empty := true }
     else
       -- newMessageSetReader: readHeader
       match readHeader01 s1 with
